@@ -72,6 +72,12 @@ class RowGenProp(Prop):
     def impl(self, req):
         return implrun.run(req)
 
+    def compare(self, req, ir, mr):
+        if isinstance(ir, dict) and isinstance(mr, dict) and "final" in ir and ir["final"] is None:
+            ir = {k: v for k, v in ir.items() if k != "final"}
+            mr = {k: v for k, v in mr.items() if k != "final"}
+        return super().compare(req, ir, mr)
+
     def to_model(self, req):
         if req["k"] == "gen":
             return {"k": "gen", "gen": gens.strip_private(req["gen"]), "ops": req["ops"]}
